@@ -343,3 +343,6 @@ def run(ctx):
     r2b_send_witness(ctx)
     r3_flush_handover(ctx)
     r5_poison(ctx)
+    from . import C19
+    C19.r6_idle_client(ctx, 'C20.R6')  # handles dropped on another thread during a poll are noticed by the post-poll re-check
+    C19.r8_last_ref_wakes(ctx, 'C20.R7')
